@@ -47,6 +47,9 @@ def check(ctx):
   r4(ctx)
   r5(ctx)
   from . import c09 as _c09
+  ctx.rule('C09.R4', 'shared with C09: ScalesSocket.close() reaches handle.close() with nothing that can raise in front of it (close runs inside the transports\' shutdown, after the state '
+                     'is Closed and before the fault signal is raised and the in-flight requests are failed: an exception there leaves the fault unreported)')
+  _c09.socket_close(ctx)
   ctx.rule('C09.R5', 'shared with C09: the fault signal reaches every subscriber: delivery iterates a copy of the subscriber set (a subscriber that unsubscribes itself while being notified -- '
                      'the resurrector does -- must not cut the others off), and every sink a pool / resurrector creates is subscribed')
   _c09.r5(ctx)
